@@ -6,6 +6,7 @@
 //	                                  backlogs and drains are exact) registered with a real engine; real time.AfterFunc
 //	C <id> http ka=<ms> wt=<ms>       a real nbhttp engine on a loopback socket, raw TCP client (keep-alive, WriteTimeout)
 //	C <id> ws ka=<ms>                 the same engine with a websocket upgrader (WS keep-alive), raw client
+//	C <id> wst ka=<ms>                std http.Server + UpgradeAndTransferConnToPoller (WS keep-alive on the transferred path)
 //
 // ops (t=<ms> is the planned offset from the start of the case; the executor never runs an op early):
 //
@@ -227,9 +228,15 @@ func genHTTP(g *lp.Gen, id int) {
 
 func genWS(g *lp.Gen, id int) {
 	ka := g.PickInt(120, 160, 200, 300)
-	g.P("C %d ws ka=%d wt=0", id, ka)
 	t := 0
-	g.P("O conn t=%d", t)
+	if g.Chance(1, 3) {
+		// the transferred path: std http.Server, UpgradeAndTransferConnToPoller
+		g.P("C %d wst ka=%d wt=0", id, ka)
+		g.P("O tconn t=%d", t)
+	} else {
+		g.P("C %d ws ka=%d wt=0", id, ka)
+		g.P("O conn t=%d", t)
+	}
 	t += g.PickInt(5, 20, 40)
 	g.P("O wsup t=%d", t)
 	last := t + ka
@@ -322,13 +329,13 @@ type caseRun struct {
 }
 
 type env struct {
-	start time.Time
-	rec   *closeRec
-	nbc   func() *nbio.Conn // the conn under observation (nil until it exists)
-	tr    track
-	cr    *caseRun
-	selfK string // kind caused by the harness's own op (user / io), "" if none
-	wasOpen bool // the conn was observed open just before the current op
+	start   time.Time
+	rec     *closeRec
+	nbc     func() *nbio.Conn // the conn under observation (nil until it exists)
+	tr      track
+	cr      *caseRun
+	selfK   string // kind caused by the harness's own op (user / io), "" if none
+	wasOpen bool   // the conn was observed open just before the current op
 }
 
 func (e *env) us() int64 { return int64(time.Since(e.start) / time.Microsecond) }
@@ -472,7 +479,7 @@ func runCase(cr *caseRun) {
 	switch kind {
 	case "virt":
 		doOp, cleanup = setupVirt(e)
-	case "http", "ws":
+	case "http", "ws", "wst":
 		doOp, cleanup = setupE2E(e, kind, atoi(field(head, "ka")), atoi(field(head, "wt")))
 	default:
 		for range cr.lines[1:] {
@@ -705,12 +712,20 @@ func setupE2E(e *env, kind string, kaMs, wtMs int) (func(ws []string), func()) {
 	up.KeepaliveTime = ka
 	up.OnMessage(func(c *websocket.Conn, mt websocket.MessageType, data []byte) { _ = c.WriteMessage(mt, data) })
 	mux.HandleFunc("/ws", func(w http.ResponseWriter, r *http.Request) {
+		if kind == "wst" {
+			_, _ = up.UpgradeAndTransferConnToPoller(w, r, nil)
+			return
+		}
 		if _, err := up.Upgrade(w, r, nil); err != nil {
 			return
 		}
 	})
+	engAddrs := []string{"127.0.0.1:0"}
+	if kind == "wst" {
+		engAddrs = nil // the conn comes from a std http.Server and is transferred to this engine's poller
+	}
 	eng := nbhttp.NewEngine(nbhttp.Config{
-		Network: "tcp", Addrs: []string{"127.0.0.1:0"}, NPoller: 1, Handler: mux,
+		Network: "tcp", Addrs: engAddrs, NPoller: 1, Handler: mux,
 		KeepaliveTime: ka, WriteTimeout: wt, MessageHandlerPoolSize: 8, SupportServerOnly: true,
 		BodyAllocator: mempool.New(1024, 1<<20), // per case: isolates the websocket buffers from the other cases
 	})
@@ -729,7 +744,19 @@ func setupE2E(e *env, kind string, kaMs, wtMs int) (func(ws []string), func()) {
 		panic(err)
 	}
 	e.nbc = func() *nbio.Conn { mu.Lock(); defer mu.Unlock(); return srv }
-	addr := eng.Addrs[0]
+	var addr string
+	var stdSrv *http.Server
+	if kind == "wst" {
+		lnr, err := net.Listen("tcp", "127.0.0.1:0")
+		if err != nil {
+			panic(err)
+		}
+		stdSrv = &http.Server{Handler: mux}
+		go func() { _ = stdSrv.Serve(lnr) }()
+		addr = lnr.Addr().String()
+	} else {
+		addr = eng.Addrs[0]
+	}
 	var cli net.Conn
 	var br *bufio.Reader
 	tr := &e.tr
@@ -737,6 +764,13 @@ func setupE2E(e *env, kind string, kaMs, wtMs int) (func(ws []string), func()) {
 	do := func(ws []string) {
 		t0 := e.us()
 		switch ws[1] {
+		case "tconn":
+			// std http.Server: no nbio deadline exists until the upgrade transfers the conn
+			c, err := net.DialTimeout("tcp", addr, 2*time.Second)
+			if err != nil {
+				return
+			}
+			cli, br = c, bufio.NewReaderSize(c, 1<<16)
 		case "conn":
 			c, err := net.DialTimeout("tcp", addr, 2*time.Second)
 			if err != nil {
@@ -798,6 +832,9 @@ func setupE2E(e *env, kind string, kaMs, wtMs int) (func(ws []string), func()) {
 			}
 			h := sha1.Sum([]byte(key + "258EAFA5-E914-47DA-95CA-C5AB0DC85B11"))
 			_ = h
+			for i := 0; i < 2000 && e.nbc() == nil; i++ {
+				time.Sleep(time.Millisecond)
+			}
 			time.Sleep(2 * time.Millisecond)
 			tr.set(0, t0+kaUs, e.us()+kaUs, t0)
 		case "msg":
@@ -823,6 +860,9 @@ func setupE2E(e *env, kind string, kaMs, wtMs int) (func(ws []string), func()) {
 	return do, func() {
 		if cli != nil {
 			_ = cli.Close()
+		}
+		if stdSrv != nil {
+			_ = stdSrv.Close()
 		}
 		stopEngine(func() { eng.Stop() })
 	}
